@@ -20,8 +20,8 @@ RULE = (
     "requested batches; distinct by (sequence class, p, verbose, folder, calls)."
     ' A tenth of the signed runs converge on a tiny negative value or -0.0; 15% of the multi-call runs reassign convergence_precision between two calls (the rule is evaluated with the precision in force); 6% of the runs contain a request of 20-30 batches, mostly converging late in that call.'
 )
-ASSUMPTIONS = ["scripted values are kept a factor 1.02 away from the 0.5*10^-p rounding boundary; exact boundary values are not generated"]
-REQUIRED_COUNTERS = {"second_restores_after_a_further_call": 40, "calls_of_20_batches_or_more": 10, "converging_value_negative_or_minus_zero": 12, "precision_reassigned_between_calls": 15, "same_calibration_ran_longer_in_the_folder_before": 20, "saving_folder_used_before_by_another_run": 30, "runs_with_a_history_reading_sampler": 60, "runs_with_signed_loss": 40, "runs_on_a_three_point_grid": 30, "numpy_integer_precision": 30, "continued_after_restore": 40, "runs": 200, "converged_inside": 60, "never_converged": 30, "no_precision": 10, "verbose_twins": 60, "folder_restores": 40,
+ASSUMPTIONS = ["for p >= 1 the rounding boundary 0.5*10^-p is not a float and values within 2% of it are not generated (numpy.round and an exact decimal rounding disagree there); at p = 0 the boundary 0.5, where every float rounding convention in use (half to even) gives 0, and its two neighbours are generated"]
+REQUIRED_COUNTERS = {"boundary_values_at_precision_zero": 4, "second_restores_after_a_further_call": 40, "calls_of_20_batches_or_more": 10, "converging_value_negative_or_minus_zero": 12, "precision_reassigned_between_calls": 15, "same_calibration_ran_longer_in_the_folder_before": 20, "saving_folder_used_before_by_another_run": 30, "runs_with_a_history_reading_sampler": 60, "runs_with_signed_loss": 40, "runs_on_a_three_point_grid": 30, "numpy_integer_precision": 30, "continued_after_restore": 40, "runs": 200, "converged_inside": 60, "never_converged": 30, "no_precision": 10, "verbose_twins": 60, "folder_restores": 40,
                      "later_calls_after_convergence": 20}
 SHARDS = {"quick": 8, "thorough": 16}
 
@@ -90,6 +90,15 @@ def one_run(rng, ctx, out):
         for k in range(at + 1, total):  # later batches may or may not converge on their own; the running minimum decides
             if rng.random() < 0.3:
                 vals[k][0] = float(unit * rng.uniform(0.0, 0.48))
+    if p == 0 and at is not None and rng.random() < 0.7:
+        # p = 0 is the one precision whose rounding boundary is a float: 0.5 itself rounds to 0 (half to even - Python's round and
+        # numpy's agree), its lower neighbour too, its upper neighbour rounds to 1
+        j = int(rng.integers(bs))
+        vals[at] = [abs(v) for v in vals[at]]
+        vals[at][j] = float(rng.choice([0.5, float(np.nextafter(0.5, 0.0))])) * (-1.0 if signed and rng.random() < 0.5 else 1.0)
+        if at > 0 and rng.random() < 0.5:
+            vals[at - 1][int(rng.integers(bs))] = float(np.nextafter(0.5, 1.0))
+        c["boundary_values_at_precision_zero"] = c.get("boundary_values_at_precision_zero", 0) + 1
     if signed:
         for k in range(total):
             if rng.random() < 0.25 and (at is None or k != at):
